@@ -8,6 +8,7 @@ import (
 	"math/big"
 	"net/url"
 	"reflect"
+	"sort"
 	"time"
 
 	"github.com/cockroachdb/apd/v2"
@@ -72,7 +73,9 @@ func deepAbs(v interface{}) string {
 				walk(rv.Index(i), depth+1)
 			}
 		case reflect.Map:
-			for _, k := range rv.MapKeys() {
+			keys := rv.MapKeys()
+			sort.Slice(keys, func(i, j int) bool { return fmt.Sprint(keys[i].Interface()) < fmt.Sprint(keys[j].Interface()) }) // map order is not part of the value
+			for _, k := range keys {
 				walk(rv.MapIndex(k), depth+1)
 			}
 		case reflect.Struct:
